@@ -94,7 +94,7 @@ def run(ctx):
                 a0 = strip_refs(c.args[0]) if c.args else None
                 pv = strip_refs(plate_store[0][3])
                 ok = isinstance(a0, ast.Attribute) and a0.attr == 'wells' and strip_refs(a0.value) is pv and \
-                    plate_store[0][0].lineno < s.lineno
+                    ff.seq(plate_store[0][0]) < ff.seq(s)
                 fact = f"super().__init__({show(c.args[0], 40) if c.args else ''}, ..) after self.plate = {show(plate_store[0][3], 30)}"
         sl_init = model.func('Slicer.__init__')
         array_stores = []
